@@ -294,7 +294,8 @@ type jsonObj = map[string]any
 
 // buildBody builds the JSON body of one request for route kind k; c decides the deviations.
 func buildBody(c *Chooser, k string) (body string, supi string) {
-	supi = pick(c, "supi", supiA, "imsi-", "imsi", "nai-user@example.org", "", "imsi-a/b", "imsi-../x", "208930000000001", "gci-1", "gli-1")
+	supi = pick(c, "supi", supiA, "imsi-", "imsi", "nai-user@example.org", "", "imsi-a/b", "imsi-../x", "208930000000001", "gci-1", "gli-1",
+		"imsi-"+strings.Repeat("7", 300), "imsi-12\x0034", "nai", "gci", "gli", "imsi-20893 0000001", "imsi-%2e%2e", "IMSI-208930000000001")
 	o := jsonObj{}
 	if c.Pick(2, "supi-absent") == 0 {
 		o["subscriberIdentifier"] = supi
@@ -574,7 +575,8 @@ func init() {
 						return
 					}
 				}
-				for _, s := range []string{"imsi-", "imsi", "nai-user@example.org", "imsi-a/b", "imsi-../x", "208930000000001", "gci-1", "gli-1", "imsi-208930000000001 ", "imsi-%2e%2e", supiA} {
+				for _, s := range []string{"imsi-", "imsi", "nai-user@example.org", "imsi-a/b", "imsi-../x", "208930000000001", "gci-1", "gli-1", "imsi-208930000000001 ", "imsi-%2e%2e", supiA,
+					"imsi-" + strings.Repeat("7", 300), "imsi-12\x0034", "nai", "gci", "gli", "IMSI-208930000000001", "imsi-.", "imsi-.."} {
 					c := mkCreate(0, "smf1")
 					c.Supi, c.Method = s, "supi="+s
 					ops = append(ops, c)
